@@ -39,9 +39,14 @@ import (
 // evaluated: Unmarshal into the dirty message vs. into a fresh one, and
 // proto.Reset vs. a new message.
 
-// "resetpr" is the same family under another name: props/C15.json runs it with
-// -tags protoreflect, and bin/check names the output file after the family.
-func init() { Register("reset", famReset); Register("resetpr", famReset) }
+// "resetpr" / "resetlg" are the same family under other names: props/C15.json
+// runs them with -tags protoreflect / protolegacy (lazily stored extensions), and
+// bin/check names the output file after the family.
+func init() {
+	Register("reset", famReset)
+	Register("resetpr", famReset)
+	Register("resetlg", famReset)
+}
 
 type resetFld struct {
 	fd  protoreflect.FieldDescriptor
